@@ -793,7 +793,7 @@ static inline uint64_t fault_draw(VT *me, int kind)
   return mix64(mix64(G.cfg.fault_seed, (static_cast<uint64_t>(me->id) << 8) | static_cast<uint64_t>(kind)), me->fault_ctr++);
 }
 
-static void ring_push(VT *me, int kind, uintptr_t addr, int size, uint64_t oldv, uint64_t newv, int mo, bool wrote)
+static void ring_push(VT *me, int kind, uintptr_t addr, int size, uint64_t oldv, uint64_t newv, int mo, bool wrote, bool hash_values = true)
 {
   Ev &e = G.ring[G.nring++ % kRing];
   e.step = G.step;
@@ -808,8 +808,10 @@ static void ring_push(VT *me, int kind, uintptr_t addr, int size, uint64_t oldv,
   uint64_t h = G.res.trace_hash;
   h = mix64(h, (static_cast<uint64_t>(me->id) << 48) ^ (static_cast<uint64_t>(kind) << 40) ^ (static_cast<uint64_t>(mo) << 32) ^ static_cast<uint64_t>(wrote));
   h = mix64(h, addr);
-  h = mix64(h, oldv);
-  h = mix64(h, newv);
+  if (hash_values) {  // values of plain accesses may be stack or TLS addresses (ASLR): shown in traces, kept out of the hash
+    h = mix64(h, oldv);
+    h = mix64(h, newv);
+  }
   G.res.trace_hash = h;
   if (G.cfg.trace) {
     fprintf(stderr, "  %6lu vt%d %-7s %#14lx/%d mo=%d old=%#lx new=%#lx%s  [%s]\n", static_cast<unsigned long>(G.step), me->id,
@@ -1338,7 +1340,7 @@ inline void plain_access(void *p, size_t n, bool write)
     if (n == 8) cur = *reinterpret_cast<volatile uint64_t *>(a);
     else if (n == 4) cur = *reinterpret_cast<volatile uint32_t *>(a);
     else if (n == 1) cur = *reinterpret_cast<volatile uint8_t *>(a);
-    ring_push(me, write ? OP_PLAIN_W : OP_PLAIN_R, a, static_cast<int>(n), cur, cur, 0, write);
+    ring_push(me, write ? OP_PLAIN_W : OP_PLAIN_R, a, static_cast<int>(n), cur, cur, 0, write, false);
   }
 }
 }  // namespace
